@@ -252,7 +252,7 @@ class Builder:
             f = self.fn(fctx, b)
             self.files[fctx]["fns"].append("void gobody () { %s (); }" % f)
             stmts.append('"/c05/user"->gocmd ();')
-            ops.append("(call other u1 0 0 (tmp 1 (verb go (call other u1 1 1 (say dogo) (call other %s 0 0 (call local %s 0 0 %s))))))" % (t, t, " ".join(o)))
+            ops.append("(call other u1 0 0 (tmp 1 (withcg u1 (verb go (call other u1 1 1 (say dogo) (call other %s 0 0 (call local %s 0 0 %s)))))))" % (t, t, " ".join(o)))
         elif k == "notifyfail":
             # a command nobody handles: user_parser() -> notify_no_command() pushes command_giver on its save stack and calls
             # the notify_fail() function pointer; the body of that callback is generated
@@ -261,7 +261,7 @@ class Builder:
             f = self.fn(fctx, b)
             self.files[fctx]["fns"].append("void nfbody () { %s (); }" % f)
             stmts.append('"/c05/user"->failcmd ();')
-            ops.append("(call other u1 0 0 (tmp 1 (safefp u1 0 0 (say nf) (call other %s 0 0 (call local %s 0 0 %s)))))" % (t, t, " ".join(o)))
+            ops.append("(call other u1 0 0 (tmp 1 (withcg u1 (safefp u1 0 0 (say nf) (call other %s 0 0 (call local %s 0 0 %s))))))" % (t, t, " ".join(o)))
         elif k == "inithook":
             # an object with an init() hook moves itself into the room where the living `mob` stands:
             # move_object() sets command_giver = mob and applies init() in the object
@@ -454,6 +454,10 @@ class C05(Prop):
     lean_modules = ["NV.C05.Exec", "NV.C05.Guards", "NV.C05.Tie", "NV.C05.Props", "NV.C05.Witness"]
     theorems = ["NV.C05.tie_save_context", "NV.C05.tie_safe_recovery_point", "NV.C05.tie_restore_offset",
                 "NV.C05.tie_depth_tests", "NV.C05.tie_statement_shapes", "NV.C05.tie_frame_codes",
+                "NV.C05.tie_context_fields_saved", "NV.C05.tie_every_field_saved_is_restored", "NV.C05.tie_context_globals",
+                "NV.C05.tie_frame_registers", "NV.C05.tie_frame_saved_is_restored", "NV.C05.tie_all_globals_classified",
+                "NV.C05.tie_classes_match_source", "NV.C05.tie_command_giver_stack", "NV.C05.tie_callback_handlers",
+                "NV.C05.tie_backend_shapes", "NV.C05.hbOffStep_same", "NV.C05.verbFinish_good", "NV.C05.hbFinish_good",
                 "NV.C05.safeFpFinish_total", "NV.C05.safeApply_all_arities", "NV.C05.call_all_arities", "NV.C05.safeFinish_total",
                 "NV.C05.saveContext_refuses_iff", "NV.C05.catch_refused", "NV.C05.safeApply_refused",
                 "NV.C05.context_chain_restored_any", "NV.C05.model_satisfies_spec", "NV.C05.exec_keeps_extension", "NV.C05.top_restores", "NV.C05.catch_yields_message_exec",
@@ -855,7 +859,7 @@ class C05(Prop):
                                  ("throw", 'throw ("t1");', "(throw t1)")):
             for outer in (False, True):
                 call = '"/c05/user"->failcmd ();'
-                o = "(call other u1 0 0 (tmp 1 (safefp u1 0 0 (say nf) (call other t 0 0 %s))))" % bops
+                o = "(call other u1 0 0 (tmp 1 (withcg u1 (safefp u1 0 0 (say nf) (call other t 0 0 %s)))))" % bops
                 B.append(fixed_case("b-notify-fail-%s%s" % (name, "-caught" if outer else ""),
                                     (CATCHSTMT % '"/c05/user"->failcmd ()') if outer else call,
                                     ("(catch %s) (saycatch)" % o) if outer else o,
@@ -865,7 +869,7 @@ class C05(Prop):
                                  ("throw", 'throw ("t1");', "(throw t1)")):
             for outer in (False, True):
                 call = '"/c05/user"->gocmd ();'
-                o = "(call other u1 0 0 (tmp 1 (verb go (call other u1 1 1 (say dogo) (call other t 0 0 %s)))))" % bops
+                o = "(call other u1 0 0 (tmp 1 (withcg u1 (verb go (call other u1 1 1 (say dogo) (call other t 0 0 %s))))))" % bops
                 B.append(fixed_case("b-verb-%s%s" % (name, "-caught" if outer else ""),
                                     (CATCHSTMT % '"/c05/user"->gocmd ()') if outer else call,
                                     ("(catch %s) (saycatch)" % o) if outer else o,
@@ -907,7 +911,8 @@ class C05(Prop):
             ("half-install", [out(["caught nf", "catch nf", "done 1"], pr=probe.replace("in=0", "in=1"))], "half-install"),
             ("catch-value", [out(["caught *boom1", "catch *other", "done 1"])], "catch-value"),
             ("cg-changed", [out(["caught *boom1", "catch *boom1 cg-changed", "done 1"])], "command_giver not restored by catch"),
-            ("hb-off-unreported", [out(["caught *boom1", "catch *boom1", "done be"], pr=probe.replace("hb=1", "hb=0"))], "heart-beat"),
+            ("hb-off-unreported", [out(["caught *boom1", "catch *boom1", "done be"], pr=probe.replace("hb=1", "hb=0")).replace("outcome ", "free ", 1)], "heart-beat"),
+            ("hb-off-fault-caught", [out(["caught *verif injected fault", "catch *verif injected fault", "done be"], pr=probe.replace("hb=1", "hb=0"))], "heart-beat"),
             ("loop-cg", [out(["err *x", "fault-top", "loop " + snap.replace("cg=u1", "cg=t")])], "restore fault-loop cg"),
             ("loop-csp", [out(["err *x", "fault-top", "loop " + snap.replace("csp=-1", "csp=0")])], "restore fault-loop csp"),
             ("crash-line", ["crash signal 11"], "crash"),
